@@ -13,6 +13,7 @@ import (
 	"github.com/esimov/gogu/vrtshim/vrt"
 	"github.com/esimov/gogu/vrtshim/vruntime"
 	sync "github.com/esimov/gogu/vrtshim/vsync"
+	"verif/seqmc"
 )
 
 // C08 part B — the cleanup goroutine is on (interval 4 units). Three threads: the script (main), the
@@ -332,4 +333,209 @@ func c08finalizerWorker(arg string) {
 
 func callFinalizer(obj, f any) {
 	reflect.ValueOf(f).Call([]reflect.Value{reflect.ValueOf(obj)})
+}
+
+// ---------------------------------------------------------------- the cache with its janitor as a state graph
+
+// c08janGraph: stateful exploration (vrt.Explorer{Stateful}) of the cache with background cleanup. A
+// driver thread picks {Set x short | Set x long | Set x none | Update x short | Delete x | Get x |
+// Advance 2} by an explorer choice in an endless loop while the library's own janitor goroutine sweeps
+// on its (virtual) ticker. The global state -- the cache's private fields with times relative to now,
+// the pending timers, every thread's continuation, the model entry -- is looked up at every scheduling
+// point and an execution is cut at a visited one: histories of any length, every interleaving with the
+// janitor. One key is enough to drive the janitor through all its cases; durations 3 and 7, interval 4.
+func c08janGraph(arg string, def int) {
+	c := &c20ctx{check: "C08", out: newWorkerOut(), st: &wStats{Shard: arg, MinBound: -1, Extra: map[string]int{}}, states: map[string]struct{}{}}
+	name := fmt.Sprintf("cache+janitor state graph (default=%d, interval=%d): driver{Set|Update|Delete|Get|Advance 2}*", def, janInterval)
+	c.st.Scenarios++
+	type monitor struct {
+		ent       *janEnt // model of key x (nil: not stored); deadlines absolute, exact (the driver is the only writer)
+		op        string  // the operation the driver is in the middle of (its arguments live in locals: part of the state)
+		viol, det string
+		trace     []string
+	}
+	var m *monitor
+	reported := map[string]bool{}
+	e := &vrt.Explorer{Horizon: 6000, Quick: !thorough, Budget: 3000000, Deadline: time.Now().Add(3 * time.Minute), Stateful: true}
+	if thorough {
+		e.Deadline = time.Now().Add(20 * time.Minute)
+	}
+	stop := false
+	e.StopEarly = func() bool { return stop }
+	body := func() {
+		m = &monitor{}
+		mm := m
+		n0 := vrt.ThreadCount()
+		ca := cache.New[string, string](time.Duration(def)*unit, janInterval*unit)
+		vrt.MarkSpawnedSinceDaemon(n0)
+		janitor := n0
+		var valp *int
+		busyp := new(int64)
+		valp = new(int) // number of values stored so far (its parity picks the next value: part of the state)
+		vrt.SetKeyFn(func() string {
+			nowNs := vrt.NowNanos() + vrt.Epoch.UnixNano()
+			floor := vrt.Epoch.UnixNano() - int64(24*time.Hour)
+			impl := seqmc.DumpRenamed(ca, func(i int64) string {
+				switch {
+				case i < floor:
+					return fmt.Sprint(i)
+				case i < nowNs:
+					return "P"
+				}
+				return fmt.Sprintf("+%d", (i-nowNs)/int64(unit))
+			})
+			me := "none"
+			if mm.ent != nil {
+				me = "never"
+				if !mm.ent.never {
+					d := mm.ent.lo - now()
+					if d < -int64(janInterval)-2 {
+						d = -int64(janInterval) - 2 // long expired
+					}
+					me = fmt.Sprint(d)
+				}
+			}
+			mv := ""
+			if mm.ent != nil {
+				mv = mm.ent.val
+			}
+			return fmt.Sprintf("%s|%s%s|%s|next-v%d|busy%d", impl, me, mv, mm.op, (*valp+1)%2, *busyp)
+		})
+		// the janitor starts and creates its ticker at time 0 (ticks at 4, 8, ...); a janitor that starts
+		// late is the business of the script-based scenarios above
+		vrt.WaitIdle()
+		val := 0
+		valp = &val
+		busy := new(int64) // how long the janitor has been busy (seen from the driver's side), capped at one interval
+		busyp = busy
+		lastIdle := int64(0)
+		for mm.viol == "" {
+			vrt.ForgetClockRead() // the locals of the previous operation are dead
+			// fairness: the janitor is not starved for more than one sweep (a tick it has not handled
+			// yet is fine, an unbounded backlog is not a state the property talks about)
+			t := now()
+			if vrt.ThreadParked(janitor) {
+				lastIdle = t
+			}
+			if *busy = t - lastIdle; *busy > int64(janInterval) {
+				*busy = int64(janInterval)
+			}
+			e0 := mm.ent
+			live := e0 != nil && (e0.never || t < e0.lo)
+			dead := e0 == nil || (!e0.never && t > e0.lo)
+			// quiescent: the janitor is parked -- every tick that was due has been handled
+			if vrt.ThreadParked(janitor) && e0 != nil && !e0.never && e0.lo < (t/janInterval)*janInterval {
+				if _, listed := ca.List()["x"]; listed {
+					mm.viol, mm.det = "Cache+janitor.graph/expired-entry-not-cleaned-up", fmt.Sprintf("at time %d the janitor is idle, the last tick was at %d and the entry that expired at %d is still stored", t, (t/janInterval)*janInterval, e0.lo)
+					break
+				}
+				mm.ent, e0 = nil, nil // swept: from here on the key is simply not stored
+				dead, live = true, false
+			}
+			mk := func(d time.Duration) *janEnt {
+				if d == cache.DefaultExpiration {
+					d = time.Duration(def) * unit
+				}
+				val++
+				if d <= 0 {
+					return &janEnt{val: fmt.Sprint("v", val%2), never: true}
+				}
+				return &janEnt{val: fmt.Sprint("v", val%2), lo: t + int64(d/unit), hi: t + int64(d/unit)}
+			}
+			nops := 7
+			if *busy >= int64(janInterval) {
+				nops = 6 // fairness: time does not pass while the janitor has been kept from finishing one sweep for a whole interval
+			}
+			k := vrt.Choose(nops)
+			mm.op = fmt.Sprint("op", k, "v", (val+1)%2)
+			switch k {
+			case 0, 1, 2: // Set x with duration 3 / 7 / Default
+				d := []time.Duration{3 * unit, 7 * unit, cache.DefaultExpiration}[k]
+				ne := mk(d)
+				err := ca.Set("x", ne.val, d)
+				mm.trace = append(mm.trace, fmt.Sprintf("Set(%v)@%d=%v", d, t, err != nil))
+				switch {
+				case live && err == nil:
+					mm.viol, mm.det = "Cache+janitor.graph/Set/live-key/no-error", fmt.Sprintf("Set at %d granted although the key holds a live entry %s", t, e0)
+				case dead && err != nil:
+					mm.viol, mm.det = "Cache+janitor.graph/Set/spurious-error", fmt.Sprintf("Set at %d refused (%v) although the key has no live entry", t, err)
+				case err == nil:
+					mm.ent = ne
+				}
+			case 3:
+				ne := mk(3 * unit)
+				if err := ca.Update("x", ne.val, 3*unit); err != nil {
+					mm.viol, mm.det = "Cache+janitor.graph/Update/spurious-error", fmt.Sprintf("Update at %d returned %v", t, err)
+				}
+				mm.ent = ne
+				mm.trace = append(mm.trace, fmt.Sprintf("Update@%d", t))
+			case 4:
+				err := ca.Delete("x")
+				mm.trace = append(mm.trace, fmt.Sprintf("Delete@%d=%v", t, err != nil))
+				if live && err != nil {
+					mm.viol, mm.det = "Cache+janitor.graph/Delete/live-entry/error", fmt.Sprintf("Delete at %d returned %v although the key holds the live entry %s", t, err, e0)
+				}
+				if e0 == nil && err == nil {
+					mm.viol, mm.det = "Cache+janitor.graph/Delete/absent-key/no-error", fmt.Sprintf("Delete at %d returned nil for a key that is not stored", t)
+				}
+				mm.ent = nil
+			case 5:
+				it, err := ca.Get("x")
+				switch {
+				case live && (err != nil || it.Val() != e0.val):
+					mm.viol, mm.det = "Cache+janitor.graph/Get/live-entry-not-returned", fmt.Sprintf("Get at %d = (%q, %v), want the live entry %s (history %v)", t, it.Val(), err, e0, mm.trace)
+				case dead && err == nil:
+					mm.viol, mm.det = "Cache+janitor.graph/Get/missing-or-expired-entry-returned", fmt.Sprintf("Get at %d = %q although the key is not stored or expired (%v)", t, it.Val(), e0)
+				}
+			case 6:
+				vrt.Advance(2 * unit) // the janitor sweeps concurrently with whatever the driver does next
+			}
+			mm.op = ""
+		}
+	}
+	e.Check = func(x *vrt.Exec) {
+		key, detail := "", ""
+		for i := 0; i < x.NumThreads(); i++ {
+			if pm := x.ThreadAt(i).Panic; pm != "" {
+				key, detail = "Cache+janitor.graph/panic", pm
+			}
+		}
+		if key == "" && m != nil && m.viol != "" {
+			key, detail = m.viol, m.det
+		}
+		if key == "" && x.Deadlock {
+			key, detail = "Cache+janitor.graph/deadlock", "no thread enabled: "+x.DeadlockInfo
+		}
+		if key == "" && x.HorizonHit {
+			key, detail = "Cache+janitor.graph/horizon", "an execution ran 6000 steps without reaching a visited state"
+		}
+		if key != "" && !reported[key] {
+			reported[key] = true
+			stop = true
+			ch := append([]int{}, e.LastChoices...)
+			c.out.finding(wFinding{key, detail, map[string]any{"scenario": name, "trace": m.trace, "choices": ch},
+				map[string]any{"engine": "conc", "check": "C08", "sub": "C08worker", "shard": arg, "scenario": name, "choices": ch}})
+		}
+	}
+	if r := replayReq; r != nil {
+		if r.Scenario == name {
+			r.Seen = true
+			x := vrt.Run(r.Choices, 6000, !thorough, body)
+			e.LastChoices = r.Choices
+			e.Check(x)
+		}
+		return
+	}
+	vrt.ClockReadCap = int64(8 * unit) // the sweep reads the clock before it takes the lock
+	defer func() { vrt.ClockReadCap = 0 }()
+	e.Explore(body)
+	if !stop {
+		crossCheckOrders(c.st, name, e, body, thorough) // quick: a second breadth-first order (depth first takes minutes here)
+	}
+	c.st.Execs, c.st.Steps, c.st.States = c.st.Execs+e.Execs, c.st.Steps+e.Steps, e.States
+	if !e.Complete && !stop {
+		c.st.Incomplete++
+	}
+	c.st.Samples = append(c.st.Samples, fmt.Sprintf("%s: %d global states, %d executions (%d cut at a visited state), fixpoint=%t", name, e.States, e.Execs, e.Cuts, e.Complete))
+	c.out.stats(*c.st)
 }
